@@ -52,36 +52,7 @@ func genC03(t *rapid.T) CaseC03 {
 	} else if w == 2 {
 		// directed: 2-5 producers of one step that all work on the graph's state (ProcessState, post-handlers); one
 		// of them may fail inside its state handler - the others still get at the state, in whatever order they finish
-		k := rapid.IntRange(2, 5).Draw(t, "stateFan")
-		sp := &gkit.Spec{Mode: []string{"dag", "pregel", "workflow"}[rapid.IntRange(0, 2).Draw(t, "stateFanMode")], In: "S", Out: "M", State: true}
-		for i := 0; i < k; i++ {
-			n := gkit.NodeSpec{Key: fmt.Sprintf("s%d", i), Kind: "lambda", In: "S"}
-			n.OutputKey = n.Key
-			n.PS = rapid.IntRange(0, 3).Draw(t, "ps") > 0
-			n.PostH = []string{"", "v", "s"}[rapid.IntRange(0, 2).Draw(t, "postH")]
-			n.PreH = []string{"", "", "v", "s"}[rapid.IntRange(0, 3).Draw(t, "preH")]
-			sp.Nodes = append(sp.Nodes, n)
-			e := gkit.Edge{From: n.Key, To: gkit.End}
-			if sp.Mode == "workflow" {
-				e.ToKey = n.Key
-				sp.Nodes[i].OutputKey = ""
-			}
-			sp.Edges = append(sp.Edges, gkit.Edge{From: gkit.Start, To: n.Key}, e)
-		}
-		if rapid.Bool().Draw(t, "stateFanFault") {
-			fi := rapid.IntRange(0, k-1).Draw(t, "stateFanFaultNode")
-			if rapid.Bool().Draw(t, "stateFanPreH") {
-				// the node's state pre-handler fails: the step's other nodes are either not started or waited for
-				if sp.Nodes[fi].PreH == "" {
-					sp.Nodes[fi].PreH = "v"
-				}
-				sp.Nodes[fi].Fault = "preherr"
-			} else {
-				sp.Nodes[fi].PS = true
-				sp.Nodes[fi].Fault = "pspanic"
-			}
-		}
-		c.Spec = sp
+		c.Spec = gkit.GenStateFan(t, true)
 	} else {
 		mode := []string{"pregel", "dag", "workflow", "workflow", "chain"}[rapid.IntRange(0, 4).Draw(t, "mode")]
 		c.Spec = gkit.GenTop(t, mode, cfg)
